@@ -192,6 +192,30 @@ def pool():
     tree = lambda: {'v': 1, 'kids': [{'v': 2, 'kids': []}]}
     from glom import Assign
     shared_assign = (Assign('a.b.c', T['v'], missing=YMissing('am')), Y('a2'))
+    shared_fill_acc = (S(acc=Fill([])), [(Y('fa'), S.acc.append(T))], S.acc)      # the [] under Fill is rebuilt for every evaluation
+
+    def job_class():
+        class Rejected(Exception):      # two classes with the SAME qualified name (a class factory run twice)
+            pass
+        return Rejected
+    RejA, RejB = job_class(), job_class()
+
+    def raiser(cls):
+        def raise_it(t):
+            raise cls('rejected %r' % (t,))
+        return raise_it
+
+    def catching_own(cls):
+        def call(target, spec):
+            try:
+                return glom(target, spec)
+            except cls as e:
+                return 'caught as its own class: %s' % (e.args,)
+            except Exception as e:
+                if 'Rejected' not in repr(type(e).__mro__):
+                    raise       # somebody else's failure (an inner call of a re-entrancy chain)
+                return 'NOT an instance of the class that was raised: %r' % (type(e).__mro__,)
+        return call
     gm = Glommer()
     gm.register(P.UA, get=lambda o, k: 'glommer-handler:%s' % k)
     return [
@@ -227,6 +251,12 @@ def pool():
         # ONE back-filling Assign: the value comes from each call's own target, the missing= factory is a scheduling point
         ('shared-assign-1', lambda: {'v': 'first'}, shared_assign),
         ('shared-assign-2', lambda: {'v': 'second'}, shared_assign),
+        # ONE spec whose accumulator starts as a Fill([]) literal
+        ('shared-fill-acc-1', lambda: ['a1', 'a2'], shared_fill_acc),
+        ('shared-fill-acc-2', lambda: ['b1', 'b2', 'b3'], shared_fill_acc),
+        # user exceptions of two distinct classes with one qualified name: each caller catches its own class
+        ('same-name-class-A', lambda: {'a': 1}, ('a', Y('n1'), raiser(RejA)), catching_own(RejA)),
+        ('same-name-class-B', lambda: {'a': 2}, ('a', Y('n2'), raiser(RejB)), catching_own(RejB)),
     ]
 
 
@@ -419,7 +449,7 @@ def compress(trace):
     return out
 
 
-PAIRS = [(0, 1), (0, 0), (2, 3), (2, 2), (4, 5), (4, 4), (6, 6), (7, 8), (0, 7), (6, 2), (4, 0), (5, 8), (9, 10), (9, 9), (11, 7), (12, 13), (14, 15), (17, 18), (14, 4), (15, 5), (16, 7), (21, 4), (22, 5), (23, 24), (23, 23)]
+PAIRS = [(0, 1), (0, 0), (2, 3), (2, 2), (4, 5), (4, 4), (6, 6), (7, 8), (0, 7), (6, 2), (4, 0), (5, 8), (9, 10), (9, 9), (11, 7), (12, 13), (14, 15), (17, 18), (14, 4), (15, 5), (16, 7), (21, 4), (22, 5), (23, 24), (23, 23), (25, 26), (27, 28)]
 
 
 def gen_lines(tier):
